@@ -227,8 +227,10 @@ def run(ctx) -> None:
     # ---------------- R1 -------------------------------------------------------------------------------
     inst = fl.func("FlowIRConcrete.instance")
     ctx.analysed(inst)
-    lits = [v for v in match.assigned_value(inst, "flowir") if isinstance(v, ast.Dict)]
-    rets = [r for r in source.walk_own(inst) if isinstance(r, ast.Return) and isinstance(r.value, ast.Name) and r.value.id == "flowir"]
+    rets = [r for r in source.walk_own(inst) if isinstance(r, ast.Return) and isinstance(r.value, ast.Name)]
+    RET = rets[-1].value.id if rets else "flowir"
+    lits = [v for v in match.assigned_value(inst, RET) if isinstance(v, ast.Dict)]
+    rets = [r for r in rets if r.value.id == RET]
     ctx.require(len(lits) == 1 and bool(rets), "anchor missing: 'flowir = {...}; return flowir' in FlowIRConcrete.instance")
     written = {field_name(consts, k) for k in lits[0].keys}
     tfs = fl.func("FlowIR.type_flowir_structure")
@@ -255,11 +257,14 @@ def run(ctx) -> None:
     pfs = fl.func("FlowIR.pretty_flowir_sort")
     ctx.analysed(pfs)
     loops = [n for n in source.walk_own(pfs) if isinstance(n, ast.For) and isinstance(n.iter, ast.Name) and n.iter.id == "flowir"]
-    ok = any(any(isinstance(s, ast.If) and "not in ret" in source.src(s.test) and any(isinstance(x, ast.Assign) for x in s.body) for s in lp.body)
+    pret = {r.value.id for r in source.walk_own(pfs) if isinstance(r, ast.Return) and isinstance(r.value, ast.Name)}
+    ok = any(any(isinstance(s, ast.If) and isinstance(s.test, ast.Compare) and isinstance(s.test.ops[0], ast.NotIn)
+                 and isinstance(s.test.comparators[0], ast.Name) and s.test.comparators[0].id in pret
+                 and any(isinstance(x, ast.Assign) for x in s.body) for s in lp.body)
              for lp in loops)
     ctx.ob("C07.R1-no-field-dropped", pfs, ok, "pretty_flowir_sort copies keys it does not know about" if ok else
            "pretty_flowir_sort drops top-level keys that are not in its ordering list", construct="for key in flowir: if key not in ret: ret[key] = flowir[key]")
-    order = match.assigned_value(pfs, "order_flowir_keys")
+    order = [v for nm in match.locals_where(pfs, lambda v: isinstance(v, ast.List) and len(v.elts) >= 5) for v in match.assigned_value(pfs, nm)]
     listed = {field_name(consts, e) for v in order if isinstance(v, ast.List) for e in v.elts}
     ctx.ob("C07.R1-no-field-dropped", order[0] if order else pfs, True, "ordering list covers %d fields (others are appended)" % len(listed), trivial=True)
     # store_unreplicated uses instance() + pretty sort + dump
@@ -296,9 +301,11 @@ def run(ctx) -> None:
             and any(isinstance(x, ast.Call) and last_attr(x) == "get_component_configuration" for s in n.body for x in ast.walk(s))]
     ctx.ob("C07.R2-imports-and-override", skip[0] if skip else inst, bool(skip), "$import components are not resolved like real components" if skip else
            "instance() resolves $import components as if they were real components")
-    ov = [n for n in source.walk_own(inst) if isinstance(n, ast.Assign) and source.src(n.targets[0]) == "comp['override']"]
+    # <component>['override'] = {platform: <component>['override'][platform]}   (platform is a parameter of instance())
+    ov = [n for n in source.walk_own(inst) if isinstance(n, ast.Assign) and isinstance(n.targets[0], ast.Subscript)
+          and isinstance(n.targets[0].slice, ast.Constant) and n.targets[0].slice.value == "override"]
     ok = any(isinstance(n.value, ast.Dict) and len(n.value.keys) == 1 and isinstance(n.value.keys[0], ast.Name) and n.value.keys[0].id == "platform"
-             and source.src(n.value.values[0]) == "comp['override'][platform]" for n in ov)
+             and source.src(n.value.values[0]) == source.src(n.targets[0]) + "[platform]" for n in ov)
     ctx.ob("C07.R2-imports-and-override", ov[0] if ov else inst, ok, "only the selected platform's override is kept" if ok else
            "instance() no longer keeps exactly the selected platform's override")
     platf = [v for k, v in zip(lits[0].keys, lits[0].values) if field_name(consts, k) == "platforms"]
@@ -311,10 +318,15 @@ def run(ctx) -> None:
     ctx.analysed(pdl)
     cfg = CFG(pdl)
     ctx.paths += cfg.paths_count()
-    ext = match.nodes_calling(cfg, lambda c: last_attr(c) == "extend" and dotted(c.func.value) == "new_components" and c.args
-                              and isinstance(c.args[0], ast.Name) and c.args[0].id == "dw_components")
+    # roles: (components of iteration 0, new document) unpacked from instantiate_dowhile(..)
+    idw = [n for n in source.walk_own(pdl) if isinstance(n, ast.Assign) and isinstance(n.targets[0], ast.Tuple) and len(n.targets[0].elts) == 2
+           and all(isinstance(e, ast.Name) for e in n.targets[0].elts) and isinstance(n.value, ast.Call) and call_name(n.value) == "instantiate_dowhile"]
+    ctx.require(bool(idw), "anchor missing: <components>, <document> = instantiate_dowhile(..) in package_document_load")
+    DWC, DWD = idw[0].targets[0].elts[0].id, idw[0].targets[0].elts[1].id
+    ext = match.nodes_calling(cfg, lambda c: last_attr(c) == "extend" and isinstance(c.func.value, ast.Name) and c.args
+                              and isinstance(c.args[0], ast.Name) and c.args[0].id == DWC)
     reg = [n for n in cfg.nodes if n.kind == "stmt" and isinstance(n.ast, ast.Assign) and isinstance(n.ast.targets[0], ast.Subscript)
-           and dotted(n.ast.targets[0].value) == "dw_loops"]
+           and isinstance(n.ast.targets[0].value, ast.Name) and isinstance(n.ast.value, ast.Name) and n.ast.value.id == DWD]
     inst_tests = match.test_nodes(cfg, lambda t: match.polarity(t, lambda e: isinstance(e, ast.Name) and e.id == "is_instance"))
     ctx.require(bool(ext) and bool(reg), "anchor missing: new_components.extend(dw_components) / dw_loops[...] in package_document_load")
     for e in ext:
@@ -351,8 +363,9 @@ def run(ctx) -> None:
         all(c2.every_path_to_passes(s, gates=assigns) for s in stores) if assigns else False
     ctx.ob("C07.R4-iterations-persisted", gi, ok, "the description is stored after the new components were added to the unreplicated description" if ok else
            "store_unreplicated_flowir_to_disk is not reached after the new components are added", construct="add_component ... store_unreplicated_flowir_to_disk")
-    tgt = match.assigned_value(gi, "unreplicated")
-    ok = any(source.src(v) == "self.configuration._unreplicated" for v in tgt)
+    recv = {dotted(c.func.value) for a in adds for c in own_calls(a.ast) if last_attr(c) == "add_component"}
+    tgt = [v for r_ in recv if r_ and "." not in r_ for v in match.assigned_value(gi, r_)]
+    ok = any(source.src(v) == "self.configuration._unreplicated" for v in tgt) or "self.configuration._unreplicated" in recv
     ctx.ob("C07.R4-iterations-persisted", tgt[0] if tgt else gi, ok, "components are added to the configuration's unreplicated description (the one that is stored)" if ok else
            "the new components are added to a description other than the one that is stored")
 
